@@ -552,6 +552,11 @@ impl<'a> Http2Parser<'a> {
         let mut scheme = None;
         let mut status = None;
 
+        // `frames` always begin at the start of a connection, so its header blocks are
+        // decoded against an empty HPACK dynamic table, never one left behind by an
+        // earlier message or by another connection handled by the same parser.
+        *self.hpack_decoder.borrow_mut() = Decoder::new();
+
         let stream_frames: Vec<&Http2Frame> =
             frames.iter().filter(|f| f.stream_id == stream_id).collect();
 
